@@ -577,163 +577,348 @@ def run_r2(repo: Repo, res: Result) -> None:
 
 # --------------------------------------------------------------------------- R3
 
+GROWERS = {"add", "update", "append", "extend", "insert", "setdefault", "appendleft"}
+SHRINKERS = {"remove", "discard", "pop", "clear", "difference_update", "intersection_update", "popitem", "popleft", "symmetric_difference_update"}
+
+
+class Order:
+    """Which collections carry the arbitrary iteration order of a set (tag flow), shared by the sink rule and the loop rule."""
+
+    def __init__(self, repo: Repo) -> None:
+        self.repo = repo
+        T = self.T = types_of(repo)
+
+        def set_typed(f: FuncInfo, e: ast.expr) -> bool:
+            try:
+                return is_set_type(T.expr(f, e))
+            except Exception:  # noqa: BLE001
+                return False
+
+        self.set_typed = set_typed
+
+        def sources(f: FuncInfo, e: ast.expr):
+            # a list/tuple/iterator made from a set keeps the set's arbitrary order
+            if isinstance(e, ast.Call) and isinstance(e.func, ast.Name) and e.func.id in ("list", "tuple", "iter", "enumerate", "map", "filter", "reversed") and e.args:
+                if any(set_typed(f, a) for a in e.args if not isinstance(a, ast.Starred)):
+                    return {"U"}
+            # a set stays a set when it is handed to a parameter annotated Iterable/Sequence: remember its nature
+            if isinstance(e, (ast.Name, ast.Attribute, ast.Call, ast.Set, ast.SetComp)) and set_typed(f, e):
+                return {"S"}
+            return None
+
+        def transfer(f: FuncInfo, call: ast.Call, names, args, recv, kwargs):
+            fn = call.func
+            if isinstance(fn, ast.Name) and fn.id in ("sorted", "set", "frozenset", "len", "any", "all", "sum", "min", "max"):
+                return set()
+            if isinstance(fn, ast.Attribute) and fn.attr in ("add", "update", "discard", "remove", "intersection", "union", "difference"):
+                t = T.expr(f, fn.value)
+                if any(m[0] == "b" and m[1] in ("set", "frozenset") for m in members(t)):
+                    return set()  # sets absorb elements in any order
+            return None
+
+        def post(f: FuncInfo, e: ast.expr, tags):
+            # the tag describes the *order of a collection*: scalars, strings and repo objects do not carry it
+            t = T.expr(f, e)
+            ms = members(t)
+            if ms and all(m[0] in ("cls", "type", "fn") or (m[0] == "b" and m[1] in ("str", "int", "bool", "none", "float", "set", "frozenset")) for m in ms):
+                keep_s = any(m[0] == "b" and m[1] in ("set", "frozenset") for m in ms)
+                return frozenset(x for x in tags if x != "U" and (x != "S" or keep_s))
+            return tags
+
+        self.flow = Flow(repo, T, Spec(sources=sources, transfer=transfer, post=post, sort_kills={"U"}, loop_tag="U", unordered_tags=frozenset({"S"}), non_absorbed=frozenset({"S"}), unordered_iter=set_typed, objects_carry=False, opaque={"len", "isinstance", "hasattr", "bool", "any", "all", "sum", "min", "max", "set", "frozenset", "sorted"}))
+
+    def unordered(self, f: FuncInfo, e: ast.expr) -> bool:
+        """`e` (an expression of f, or of a view of f) is iterated in an order that depends on the hash seed."""
+        if self.set_typed(f, e):
+            return True
+        src = getattr(e, "_src", None)
+        orig = src[1] if src is not None else e
+        return bool({"U", "S"} & self.flow.tags(orig))
+
+    # ------------------------------------------------------------------ sinks
+    def sinks(self) -> list[dict]:
+        """Every place where a collection is turned into text, with the verdict of the flow analysis."""
+        T, repo = self.T, self.repo
+        out = []
+        for f in repo.all_functions():
+            for node in own_nodes(f.node):
+                sink_arg = None
+                what = ""
+                if isinstance(node, ast.Call) and isinstance(node.func, ast.Attribute) and node.func.attr == "join" and len(node.args) == 1:
+                    rt = T.expr(f, node.func.value)
+                    if any(m == ("b", "str", ()) for m in members(rt)):
+                        sink_arg, what = node.args[0], f"{norm(node.func.value)}.join"
+                elif isinstance(node, ast.FormattedValue):
+                    t = T.expr(f, node.value)
+                    if any(m[0] == "b" and m[1] in ("set", "frozenset", "list", "tuple", "dict", "seq", "iter") for m in members(t)):
+                        sink_arg, what = node.value, "f-string"
+                elif isinstance(node, ast.Call) and isinstance(node.func, ast.Name) and node.func.id in ("str", "repr") and node.args:
+                    t = T.expr(f, node.args[0])
+                    if any(m[0] == "b" and m[1] in ("set", "frozenset", "list", "tuple", "dict") for m in members(t)):
+                        sink_arg, what = node.args[0], node.func.id
+                if sink_arg is None:
+                    continue
+                direct_set = self.set_typed(f, sink_arg) or (isinstance(sink_arg, (ast.GeneratorExp, ast.ListComp)) and any(self.set_typed(f, g.iter) for g in sink_arg.generators))
+                tagged = bool({"U", "S"} & self.flow.tags(sink_arg))
+                out.append({"f": f, "node": node, "arg": sink_arg, "what": what, "ok": not direct_set and not tagged, "direct": direct_set})
+        return out
+
+    # ------------------------------------------------------------------ loops
+    def loops(self) -> list[dict]:
+        """Loops over an unordered collection and the containers their bodies both grow and shrink (helpers expanded)."""
+        T, repo = self.T, self.repo
+        out = []
+        for f in repo.all_functions():
+            if isinstance(f.node, ast.Lambda) or not any(isinstance(n, (ast.For, ast.AsyncFor)) for n in own_nodes(f.node)):
+                continue
+            v = inline_view(repo, f, T)
+            for lp in own_nodes(v.node):
+                if not isinstance(lp, (ast.For, ast.AsyncFor)):
+                    continue
+                src = getattr(lp, "_src", None)
+                if src is not None and src[0] is not f and src[0] != f:
+                    continue  # a loop of an expanded helper: judged in the helper itself
+                if not self.unordered(v, lp.iter):
+                    continue
+                grown: dict[str, ast.AST] = {}
+                shrunk: dict[str, ast.AST] = {}
+                for st in lp.body:
+                    for c in ast.walk(st):
+                        if isinstance(c, ast.Call) and isinstance(c.func, ast.Attribute):
+                            recv = dotted(c.func.value)
+                            if not recv:
+                                continue
+                            if c.func.attr in GROWERS:
+                                grown.setdefault(recv, c)
+                            elif c.func.attr in SHRINKERS:
+                                shrunk.setdefault(recv, c)
+                        elif isinstance(c, ast.AugAssign):
+                            recv = dotted(c.target)
+                            if recv and isinstance(c.op, (ast.Add, ast.BitOr)):
+                                grown.setdefault(recv, c)
+                            elif recv and isinstance(c.op, (ast.Sub, ast.BitAnd)):
+                                shrunk.setdefault(recv, c)
+                        elif isinstance(c, ast.Delete):
+                            for t in c.targets:
+                                if isinstance(t, ast.Subscript) and dotted(t.value):
+                                    shrunk.setdefault(dotted(t.value), c)
+                        elif isinstance(c, ast.Assign):
+                            for t in c.targets:
+                                if isinstance(t, ast.Subscript) and dotted(t.value):
+                                    grown.setdefault(dotted(t.value), c)
+                # a container created anew in every iteration cannot carry anything from one element to the next
+                rebound = set()
+                for st in lp.body:
+                    for n in ast.walk(st):
+                        if isinstance(n, (ast.Assign, ast.AnnAssign)) and getattr(n, "value", None) is not None:
+                            for t in (n.targets if isinstance(n, ast.Assign) else [n.target]):
+                                rebound |= {x.id for x in ast.walk(t) if isinstance(x, ast.Name) and isinstance(x.ctx, ast.Store)}
+                both = sorted(r for r in set(grown) & set(shrunk) if r.split(".")[0] not in rebound)
+                orig = src[1] if src is not None else lp
+                out.append({"f": f, "loop": orig, "iter": lp.iter, "both": both, "grown": grown, "shrunk": shrunk})
+        return out
+
+
+def _fixture_repo(name: str):
+    """A scratch repository that consists of one fixture file (positive examples for rules whose expected count is zero)."""
+    from pathlib import Path
+    import shutil, tempfile
+
+    fx = Path(__file__).resolve().parent / "c15_fixtures" / name
+    tmp = Path(tempfile.mkdtemp(prefix="pta-fixture-"))
+    (tmp / "src" / "pytestarch").mkdir(parents=True)
+    shutil.copy(fx, tmp / "src" / "pytestarch" / f"fixture_{name}")
+    return tmp, Repo(tmp)
+
 
 def run_r3(repo: Repo, res: Result) -> None:
-    T = types_of(repo)
-
-    def set_typed(f: FuncInfo, e: ast.expr) -> bool:
-        return is_set_type(T.expr(f, e))
-
-    def sources(f: FuncInfo, e: ast.expr):
-        # a list/tuple/iterator made from a set keeps the set's arbitrary order
-        if isinstance(e, ast.Call) and isinstance(e.func, ast.Name) and e.func.id in ("list", "tuple", "iter", "enumerate", "map", "filter", "reversed") and e.args:
-            if any(set_typed(f, a) for a in e.args if not isinstance(a, ast.Starred)):
-                return {"U"}
-        # a set stays a set when it is handed to a parameter annotated Iterable/Sequence: remember its nature
-        if isinstance(e, (ast.Name, ast.Attribute, ast.Call, ast.Set, ast.SetComp)) and set_typed(f, e):
-            return {"S"}
-        return None
-
-    def transfer(f: FuncInfo, call: ast.Call, names, args, recv, kwargs):
-        fn = call.func
-        if isinstance(fn, ast.Name) and fn.id in ("sorted", "set", "frozenset", "len", "any", "all", "sum", "min", "max"):
-            return set()
-        if isinstance(fn, ast.Attribute) and fn.attr in ("add", "update", "discard", "remove", "intersection", "union", "difference"):
-            t = T.expr(f, fn.value)
-            if any(m[0] == "b" and m[1] in ("set", "frozenset") for m in members(t)):
-                return set()  # sets absorb elements in any order
-        return None
-
-    def post(f: FuncInfo, e: ast.expr, tags):
-        # the tag describes the *order of a collection*: scalars, strings and repo objects do not carry it
-        t = T.expr(f, e)
-        ms = members(t)
-        if ms and all(m[0] in ("cls", "type", "fn") or (m[0] == "b" and m[1] in ("str", "int", "bool", "none", "float", "set", "frozenset")) for m in ms):
-            keep_s = any(m[0] == "b" and m[1] in ("set", "frozenset") for m in ms)
-            return frozenset(x for x in tags if x != "U" and (x != "S" or keep_s))
-        return tags
-
-    flow = Flow(repo, T, Spec(sources=sources, transfer=transfer, post=post, sort_kills={"U"}, loop_tag="U", unordered_tags=frozenset({"S"}), non_absorbed=frozenset({"S"}), unordered_iter=set_typed, objects_carry=False, opaque={"len", "isinstance", "hasattr", "bool", "any", "all", "sum", "min", "max", "set", "frozenset", "sorted"}))
+    order = Order(repo)
     n = 0
-    sinks = 0
-    for f in repo.all_functions():
-        for node in own_nodes(f.node):
-            sink_arg = None
-            what = ""
-            if isinstance(node, ast.Call) and isinstance(node.func, ast.Attribute) and node.func.attr == "join" and len(node.args) == 1:
-                rt = T.expr(f, node.func.value)
-                if any(m == ("b", "str", ()) for m in members(rt)):
-                    sink_arg, what = node.args[0], f"{norm(node.func.value)}.join"
-            elif isinstance(node, ast.FormattedValue):
-                t = T.expr(f, node.value)
-                if any(m[0] == "b" and m[1] in ("set", "frozenset", "list", "tuple", "dict", "seq", "iter") for m in members(t)):
-                    sink_arg, what = node.value, "f-string"
-            elif isinstance(node, ast.Call) and isinstance(node.func, ast.Name) and node.func.id in ("str", "repr") and node.args:
-                t = T.expr(f, node.args[0])
-                if any(m[0] == "b" and m[1] in ("set", "frozenset", "list", "tuple", "dict") for m in members(t)):
-                    sink_arg, what = node.args[0], node.func.id
-            if sink_arg is None:
-                continue
-            sinks += 1
-            direct_set = set_typed(f, sink_arg) or (isinstance(sink_arg, (ast.GeneratorExp, ast.ListComp)) and any(set_typed(f, g.iter) for g in sink_arg.generators))
-            tagged = bool({"U", "S"} & flow.tags(sink_arg))
-            ok = not direct_set and not tagged
-            n += 1
-            res.add(
-                "C15.R3",
-                repo.key(f, stmt_of(node)) + f" [{what}({norm(sink_arg, 60)})]",
-                ok,
-                "text built from an ordered (sorted or list-ordered) collection" if ok else f"`{norm(sink_arg, 80)}` reaches text through {what} in set-iteration order ({'a set is joined directly' if direct_set else 'the collection was filled while iterating a set and never sorted'}): the message depends on PYTHONHASHSEED",
-                where(f, node),
-                kind="flow",
-            )
-    res.floor("C15.R3", 8, n)
+    for s in order.sinks():
+        f, node, sink_arg, what, ok = s["f"], s["node"], s["arg"], s["what"], s["ok"]
+        n += 1
+        res.add(
+            "C15.R3",
+            repo.key(f, stmt_of(node)) + f" [{what}({norm(sink_arg, 60)})]",
+            ok,
+            "text built from an ordered (sorted or list-ordered) collection" if ok else f"`{norm(sink_arg, 80)}` reaches text through {what} in set-iteration order ({'a set is joined directly' if s['direct'] else 'the collection was filled while iterating a set and never sorted'}): the message depends on PYTHONHASHSEED",
+            where(f, node),
+            kind="flow",
+        )
+    res.floor("C15.R3", 4, n)
     # grow-and-shrink of one container inside a loop over an unordered collection
     k = 0
-    for f in repo.all_functions():
-        for lp in own_nodes(f.node):
-            if not isinstance(lp, (ast.For, ast.AsyncFor)) or not set_typed(f, lp.iter):
-                continue
-            grown: dict[str, ast.AST] = {}
-            shrunk: dict[str, ast.AST] = {}
-            for c in ast.walk(lp):
-                if isinstance(c, ast.Call) and isinstance(c.func, ast.Attribute):
-                    recv = dotted(c.func.value)
-                    if not recv:
-                        continue
-                    if c.func.attr in ("add", "update", "append", "extend", "insert", "setdefault"):
-                        grown.setdefault(recv, c)
-                    elif c.func.attr in ("remove", "discard", "pop", "clear", "difference_update", "intersection_update"):
-                        shrunk.setdefault(recv, c)
-            k += 1
-            both = sorted(set(grown) & set(shrunk))
-            res.add(
-                "C15.R3",
-                repo.key(f, lp) + " [order-independent loop body]",
-                not both,
-                "loop over a set only grows (or only shrinks) each container: the result does not depend on iteration order" if not both else f"`{both[0]}` is both grown (`{norm(grown[both[0]], 60)}`) and shrunk (`{norm(shrunk[both[0]], 60)}`) inside one loop over the set `{norm(lp.iter)}`: the final content depends on the set's iteration order (hash seed)",
-                where(f, lp),
-                kind="structural",
-            )
+    for l in order.loops():
+        f, lp, both, grown, shrunk = l["f"], l["loop"], l["both"], l["grown"], l["shrunk"]
+        k += 1
+        res.add(
+            "C15.R3",
+            repo.key(f, lp) + " [order-independent loop body]",
+            not both,
+            "loop over a set only grows (or only shrinks) each container: the result does not depend on iteration order" if not both else f"`{both[0]}` is both grown (`{norm(grown[both[0]], 60)}`) and shrunk (`{norm(shrunk[both[0]], 60)}`) inside one loop over the set `{norm(l['iter'])}`: the final content depends on the set's iteration order (hash seed)",
+            where(f, lp),
+            kind="structural",
+        )
     res.floor("C15.R3.loops", 3, k)
-    res.analysed["text_sinks"] = sinks
+    res.analysed["text_sinks"] = n
+    # positive fixture: the same two extractions must flag the textbook cases and accept their repaired forms
+    import shutil
+
+    tmp, frepo = _fixture_repo("unordered.py")
+    try:
+        fo = Order(frepo)
+        bad_sinks = {s["f"].name for s in fo.sinks() if not s["ok"]}
+        good_sinks = {s["f"].name for s in fo.sinks() if s["ok"]} - bad_sinks
+        bad_loops = {l["f"].name for l in fo.loops() if l["both"]}
+        good_loops = {l["f"].name for l in fo.loops() if not l["both"]} - bad_loops
+        want_bad_sinks = {"joined_directly", "joined_after_copy", "joined_from_loop", "joined_through_helper"}
+        want_bad_loops = {"grow_and_shrink", "grow_and_shrink_through_helper"}
+        if bad_sinks != want_bad_sinks or "joined_sorted" not in good_sinks:
+            raise AnalysisError(f"C15.R3 fixture: unordered text sinks not recognised exactly (flagged {sorted(bad_sinks)}, want {sorted(want_bad_sinks)}; accepted {sorted(good_sinks)})")
+        if bad_loops != want_bad_loops or not {"two_passes"} <= good_loops or "ordered_pass" in bad_loops:
+            raise AnalysisError(f"C15.R3 fixture: order-dependent loop bodies not recognised exactly (flagged {sorted(bad_loops)}, want {sorted(want_bad_loops)}; accepted {sorted(good_loops)})")
+        res.add("C15.R3", "fixture::engine/rules/c15_fixtures/unordered.py", True, f"positive fixture recognised: sinks {sorted(bad_sinks)}, loops {sorted(bad_loops)}; repaired forms accepted", nontrivial=False)
+    finally:
+        shutil.rmtree(tmp, ignore_errors=True)
 
 
 # --------------------------------------------------------------------------- R4
 
+CACHE_DECORATORS = {"lru_cache", "cache", "cached_property", "memoize", "memoized"}
+_IMMUTABLE_KINDS = {"str", "int", "bool", "none", "float", "bytes", "ellipsis"}
 
-def shared_state_writes(repo: Repo) -> list[Write]:
+
+def _immutable_type(t) -> bool | None:
+    """True / False, None when the annotation is missing or unresolved."""
+    ms = members(t)
+    if not ms or any(m == ("unknown",) for m in ms):
+        return None
+    for m in ms:
+        if m[0] == "b" and m[1] in _IMMUTABLE_KINDS:
+            continue
+        if m[0] == "b" and m[1] in ("tuple", "frozenset"):
+            inner = [_immutable_type(x) for x in m[2]] if len(m) > 2 else []
+            if all(x is True for x in inner):
+                continue
+            return False if any(x is False for x in inner) else None
+        if m[0] == "lib" and m[1] in ("pathlib.Path", "re.Pattern"):
+            continue
+        return False
+    return True
+
+
+def shared_state_writes(repo: Repo) -> list[dict]:
+    """Writes, inside functions, to objects that outlive the call and belong to no instance: module-level names, class-level
+    attributes (also through `self.` / `cls.` / a local alias), variables of an enclosing function that survive in a returned closure."""
     T = types_of(repo)
+    R = _roots(repo)
     E = Effects(repo, T)
+    out: list[dict] = []
+    seen: set[int] = set()
+    for f in repo.all_functions():
+        for w in R.writes(f):
+            for r, _l in R.targets(w):
+                if r[0] == "global" and id(w.node) not in seen:
+                    seen.add(id(w.node))
+                    kind_ = "classvar" if r[1] in repo.classes or r[1].rsplit(".", 1)[0] in repo.classes else "global"
+                    out.append({"f": f, "node": w.node, "kind": kind_, "name": r[1]})
+        for w in E.writes(f):
+            if w.root_kind in ("classvar", "global") and id(w.node) not in seen:
+                seen.add(id(w.node))
+                out.append({"f": f, "node": w.node, "kind": w.root_kind, "name": f"{w.root}.{w.field}".rstrip(".")})
+        # closure state: a nested function that is handed out writes to a variable of the function that created it
+        if f.outer is not None and not isinstance(f.node, ast.Lambda):
+            outer = f.outer
+            escapes = any(isinstance(n, ast.Return) and n.value is not None and any(isinstance(x, ast.Name) and x.id == f.name for x in ast.walk(n.value)) for n in own_nodes(outer.node))
+            if escapes:
+                R._scan(outer)
+                R._scan(f)
+                for w in R.writes(f):
+                    from .c15_roots import root_name
+
+                    root, _p = root_name(w.recv)
+                    if isinstance(root, ast.Name) and root.id not in f.param_names and root.id not in R._bindings[f.fq] and (root.id in R._bindings[outer.fq]) and id(w.node) not in seen:
+                        seen.add(id(w.node))
+                        out.append({"f": f, "node": w.node, "kind": "closure", "name": root.id})
+    return out
+
+
+def memoised(repo: Repo) -> list[dict]:
+    """Functions under a caching decorator; `harmless` when the cache cannot be observed: a function of immutable arguments only,
+    returning an immutable value, that is not bound to an instance, reads no module / class level state and writes nothing."""
+    T = types_of(repo)
+    R = _roots(repo)
     out = []
     for f in repo.all_functions():
-        for w in E.writes(f):
-            if w.root_kind in ("classvar", "global"):
-                out.append(w)
+        decos = [d for d in f.decorators if d in CACHE_DECORATORS]
+        if not decos or isinstance(f.node, ast.Lambda):
+            continue
+        why = []
+        if Roots.self_name(f) is not None:
+            why.append("it is bound to an instance / class whose state it can read")
+        for p in f.params:
+            if p.arg == Roots.self_name(f):
+                continue
+            it = _immutable_type(T.param_type(f, p.arg))
+            if it is not True:
+                why.append(f"parameter `{p.arg}` is {'mutable' if it is False else 'of unknown type'}: results computed for one object are served for another state of it")
+        rt = _immutable_type(T.return_type(f))
+        if rt is not True:
+            why.append("the cached result is a mutable object shared between all callers" if rt is False else "the type of the cached result is unknown")
+        for n in own_nodes(f.node):
+            if isinstance(n, ast.Name) and isinstance(n.ctx, ast.Load):
+                v = R.value(f, n)
+                if any(r[0] == "global" for r in v.roots):
+                    why.append(f"it reads module-level state `{n.id}`")
+                    break
+        if any(not all(r == FRESH for r, _l in R.targets(w)) for w in R.writes(f)):
+            why.append("it writes to objects it did not create")
+        out.append({"f": f, "decorators": decos, "harmless": not why, "why": why})
     return out
 
 
 def run_r4(repo: Repo, res: Result) -> None:
-    T = types_of(repo)
     ws = shared_state_writes(repo)
     for w in ws:
+        f, node = w["f"], w["node"]
+        what = {"classvar": "class-level", "global": "module-level", "closure": "closure"}[w["kind"]]
         res.add(
             "C15.R4",
-            repo.key(w.fi, stmt_of(w.node)),
+            repo.key(f, stmt_of(node)),
             False,
-            f"`{header(stmt_of(w.node))}` in {w.fi.qualname} writes {'class-level' if w.root_kind == 'classvar' else 'module-level'} state `{w.root}.{w.field}` shared by all instances: results of one scan / evaluation leak into the next one in the same process",
-            where(w.fi, w.node),
+            f"`{header(stmt_of(node))}` in {f.qualname} writes {what} state `{w['name']}` that outlives the call and is shared by all instances / calls: results of one scan / evaluation leak into the next one in the same process",
+            where(f, node),
             kind="effect",
         )
     # caching decorators keep hidden state as well
-    cached = [f for f in repo.all_functions() if any(d in ("lru_cache", "cache", "cached_property") for d in f.decorators)]
-    for f in cached:
-        E = Effects(repo, T)
-        mutable_ret = not isinstance(f.node, ast.Lambda) and any(isinstance(n, ast.Return) and n.value is not None and kind(T.expr(f, n.value)) in ("set", "list", "dict") for n in own_nodes(f.node))
+    ms = memoised(repo)
+    for m in ms:
+        f = m["f"]
         res.add(
             "C15.R4",
             f"{f.relpath}::{f.qualname}::cache decorator",
-            False,
-            f"{f.qualname} is memoised ({', '.join(f.decorators)}): results computed for one architecture/configuration are served to later calls" + (" and the cached mutable result is shared between callers" if mutable_ret else ""),
+            m["harmless"],
+            f"{f.qualname} is memoised ({', '.join(m['decorators'])}) but is a function of immutable arguments only with an immutable result, reads no shared state and writes nothing: the cache cannot be observed" if m["harmless"] else f"{f.qualname} is memoised ({', '.join(m['decorators'])}): results computed for one architecture / configuration are served to later calls; " + "; ".join(m["why"]),
             where(f, f.node),
             kind="effect",
         )
-    res.add("C15.R4", "src::no shared mutable state written inside functions", not ws and not cached, f"{len(repo.funcs)} functions analysed: none writes class-level or module-level state, none is memoised", kind="effect")
-    # positive fixture: the rule must recognise a class-level cache (expected count on the real tree is zero)
-    from pathlib import Path
-    import shutil, tempfile
+    bad_memo = [m for m in ms if not m["harmless"]]
+    res.add("C15.R4", "src::no shared mutable state written inside functions", not ws and not bad_memo, f"{len(repo.funcs)} functions analysed: none writes class-level, module-level or closure state, none keeps an observable cache", kind="effect")
+    # positive fixture: the rule must recognise the textbook forms (expected count on the real tree is zero)
+    import shutil
 
-    fx = Path(__file__).resolve().parents[1] / "fixtures" / "shared_state.py"
-    tmp = Path(tempfile.mkdtemp(prefix="pta-fixture-"))
+    tmp, frepo = _fixture_repo("shared_state.py")
     try:
-        (tmp / "src" / "pytestarch").mkdir(parents=True)
-        shutil.copy(fx, tmp / "src" / "pytestarch" / "fixture_shared_state.py")
-        frepo = Repo(tmp)
-        got = {(w.fi.qualname, w.root_kind) for w in shared_state_writes(frepo)}
-        want = {("Cache.lookup", "classvar"), ("remember", "global"), ("Cache.via_cls", "classvar")}
-        if not want <= got:
-            raise AnalysisError(f"C15.R4 fixture: shared-state writes not recognised (got {sorted(got)}, want {sorted(want)})")
-        res.add("C15.R4", "fixture::engine/fixtures/shared_state.py", True, f"positive fixture recognised: {sorted(got)}", nontrivial=False)
+        got = {(w["f"].qualname, w["kind"]) for w in shared_state_writes(frepo)}
+        want = {("Cache.lookup", "classvar"), ("Cache.lookup_through_alias", "classvar"), ("remember", "global"), ("remember_through_alias", "global"), ("Cache.via_cls", "classvar"), ("make_counter.count", "closure")}
+        clean = {"Cache.own_only", "Cache.__init__", "local_only", "local_only.note"}
+        if got != want or any(q in clean for q, _k in got):
+            raise AnalysisError(f"C15.R4 fixture: shared-state writes not recognised exactly (got {sorted(got)}, want {sorted(want)})")
+        memo = {m["f"].qualname: m["harmless"] for m in memoised(frepo)}
+        want_memo = {"pure_text": True, "shared_result": False, "state_dependent": False, "of_mutable_argument": False}
+        if memo != want_memo:
+            raise AnalysisError(f"C15.R4 fixture: memoised functions not classified as expected (got {memo}, want {want_memo})")
+        res.add("C15.R4", "fixture::engine/rules/c15_fixtures/shared_state.py", True, f"positive fixture recognised: {sorted(got)}; memoised: {memo}", nontrivial=False)
     finally:
         shutil.rmtree(tmp, ignore_errors=True)
 
